@@ -100,7 +100,12 @@ struct Runner {
     panic_loc: String,
     panic_msg: String,
     dead: bool,
+    /// set when a step registered more terminals than a truth table can cover: that step is
+    /// dropped from the case and the terminals known before it are used
+    final_terms: Option<Vec<ExprRef>>,
 }
+
+const TERM_LIMIT: usize = 10;
 
 impl Runner {
     fn new(ctx: Context) -> Self {
@@ -115,6 +120,7 @@ impl Runner {
             panic_loc: String::new(),
             panic_msg: String::new(),
             dead: false,
+            final_terms: None,
         }
     }
 
@@ -125,6 +131,7 @@ impl Runner {
     /// run one step on the real implementation
     fn exec(&mut self, step: Step) {
         assert!(!self.dead);
+        let terms_before = self.gc.verif_terminals();
         let ctx = &mut self.ctx;
         let gc = &mut self.gc;
         let sums = &self.sums;
@@ -154,6 +161,11 @@ impl Runner {
             }
             Step::Guard(e) => (None, Some(gc.expr_to_guard(ctx, *e))),
         });
+        if self.gc.verif_terminals().len() > TERM_LIMIT {
+            self.final_terms = Some(terms_before);
+            self.dead = true;
+            return;
+        }
         self.steps.push(step);
         match r {
             Err(msg) => {
@@ -183,7 +195,7 @@ impl Runner {
     }
 
     fn dump(&self, id: &str, debug: bool, stats: &mut Stats) -> String {
-        let mut terms = self.gc.verif_terminals();
+        let mut terms = self.final_terms.clone().unwrap_or_else(|| self.gc.verif_terminals());
         terms.sort();
         let n = terms.len();
         let mut s = format!("(case {id} (debug {}) (steps", if debug { 1 } else { 0 });
@@ -250,7 +262,7 @@ impl Runner {
             }
         }
         s.push(')');
-        if self.dead {
+        if self.dead && self.final_terms.is_none() {
             s.push_str(&format!(" (panicloc {}) (panicmsg {})", quote(&self.panic_loc), quote(&self.panic_msg)));
         }
         s.push(')');
@@ -266,7 +278,7 @@ struct Gen {
 }
 
 fn gen_bool(ctx: &mut Context, rng: &mut Rng, g: &Gen, depth: u32, stats: &mut Stats) -> ExprRef {
-    if depth == 0 || rng.chance(1, 4) {
+    if depth == 0 || rng.chance(1, 6) {
         return if rng.chance(1, 12) {
             stats.bump("guard_nodes", "lit");
             if rng.chance(1, 2) { ctx.get_true() } else { ctx.get_false() }
@@ -400,7 +412,7 @@ fn pick_step(r: &mut Runner, rng: &mut Rng, g: &Gen, stats: &mut Stats, args: &A
     // opening: a few conditions and a few values, so that later steps have something to combine
     if n < 2 || (n < 5 && rng.chance(1, 2)) {
         return if n % 2 == 0 {
-            let d = rng.below(4) as u32;
+            let d = 1 + rng.below(4) as u32;
             let e = gen_bool(&mut r.ctx, rng, g, d, stats);
             Step::New(e)
         } else {
@@ -422,7 +434,7 @@ fn pick_step(r: &mut Runner, rng: &mut Rng, g: &Gen, stats: &mut Stats, args: &A
         match rng.below(20) {
             0..=1 => {
                 return if rng.chance(1, 2) {
-                    let d = rng.below(4) as u32;
+                    let d = 1 + rng.below(4) as u32;
                     let e = gen_bool(&mut r.ctx, rng, g, d, stats);
                     Step::New(e)
                 } else {
@@ -520,6 +532,10 @@ fn replay_case(c: &Sexp) -> (Runner, String) {
 }
 
 pub fn run(args: &Args) {
+    if std::env::var("C20_DEBUG").is_ok() {
+        // print panics (the shared hook only records them)
+        std::panic::set_hook(Box::new(|info| eprintln!("panic: {info}")));
+    }
     let mut rng = Rng::new(args.seed);
     let mut out = std::io::BufWriter::new(std::fs::File::create(&args.out).expect("out file"));
     let mut stats = Stats::default();
@@ -530,11 +546,13 @@ pub fn run(args: &Args) {
         distinct.insert(line[line.find("(steps").unwrap_or(0)..].to_string());
         stats.sample(&line, 3);
         stats.inc("cases");
-        if r.dead {
+        if r.final_terms.is_some() {
+            stats.inc("cases_cut_at_terminal_limit");
+        } else if r.dead {
             stats.inc("impl_panics");
             stats.bump("panic_loc", &r.panic_loc);
         }
-        stats.bump("terminals_in_bdd", &format!("{}", r.gc.verif_terminals().len()));
+        stats.bump("terminals_in_bdd", &format!("{}", r.final_terms.as_ref().map(|t| t.len()).unwrap_or_else(|| r.gc.verif_terminals().len())));
         stats.bump("steps_per_case", &format!("{}", r.steps.len()));
         writeln!(out, "{line}").unwrap();
     };
